@@ -5,6 +5,7 @@ mod ix;
 mod mg;
 mod sg;
 mod uf;
+mod views;
 use common::*;
 
 fn main() {
